@@ -333,7 +333,13 @@ impl Filter {
             }
 
             let mut i = 0;
-            while let Some(letter) = filter_tags.get_string(i, 0) {
+            while i < filter_tags.count() {
+                let letter = match filter_tags.get_string(i, 0) {
+                    Some(letter) => letter,
+                    // A constraint with no name cannot be met, and it must
+                    // not hide the constraints after it
+                    None => return Ok(false),
+                };
                 let mut j = 1;
                 let mut found = false;
                 while let Some(value) = filter_tags.get_string(i, j) {
